@@ -72,38 +72,13 @@ theorem satFields_of_emptyLeaf (exro : Bool) (s : RS) (e : EmptyLeaf s) (kvs : L
     simp only [e.props, lookup]
     exact e.addl
 
-/-- inside the exclusion-free zone no key of a readOnly property carries `null` -/
-theorem roNullFields_false (exro : Bool) (s : RS) (kvs : List (Str × V)) (h : roNullFields exro s kvs = false)
-    (hx : exro = false) : ∀ k v, (k, v) ∈ kvs → isRO (lookup k s.props) = true → v.isNull = false := by
-  induction kvs with
-  | nil => intro k v hm; simp at hm
-  | cons x r ih =>
-    obtain ⟨k0, v0⟩ := x
-    rw [roNullFields] at h
-    simp only [Bool.or_eq_false_iff] at h
-    intro k v hm hro
-    simp only [List.mem_cons, Prod.mk.injEq] at hm
-    rcases hm with ⟨rfl, rfl⟩ | hm
-    · cases hl : lookup k s.props with
-      | none => simp [hl, isRO] at hro
-      | some p =>
-        simp only [hl, isRO] at hro
-        have h1 := h.1
-        simp only [hl, Bool.or_eq_false_iff, Bool.and_eq_false_iff] at h1
-        rcases h1.1 with (h2 | h2) | h2
-        · simp [hro] at h2
-        · simp [hx] at h2
-        · exact h2
-    · exact ih h.2 k v hm hro
-
-theorem roLoopOK_iff (exro : Bool) (s : RS) (kvs : List (Str × V)) (h : roNullFields exro s kvs = false) :
+theorem roLoopOK_iff (exro : Bool) (s : RS) (kvs : List (Str × V)) :
     roLoopOK exro s.props kvs = true ↔ (exro = false → ∀ k, isRO (lookup k s.props) = true → k ∉ keys kvs) := by
   unfold roLoopOK
   simp only [List.all_eq_true, Bool.or_eq_true, Bool.not_eq_true', Bool.and_eq_false_iff]
   constructor
   · intro hall hx k hro hk
     obtain ⟨v, hv⟩ := lookup_isSome_of_mem_keys k kvs hk
-    have hnn := roNullFields_false exro s kvs h hx k v (lookup_some_mem k kvs v hv) hro
     have hkp : k ∈ keys s.props := by
       cases hl : lookup k s.props with
       | none => simp [hl, isRO] at hro
@@ -111,7 +86,7 @@ theorem roLoopOK_iff (exro : Bool) (s : RS) (kvs : List (Str × V)) (h : roNullF
     rcases hall k hkp with (h1 | h1) | h1
     · simp [hro] at h1
     · simp [hx] at h1
-    · simp [hv, hnn] at h1
+    · simp [hv] at h1
   · intro hs k _
     cases hro : isRO (lookup k s.props) with
     | false => simp
@@ -121,6 +96,7 @@ theorem roLoopOK_iff (exro : Bool) (s : RS) (kvs : List (Str × V)) (h : roNullF
       | false =>
         right
         rw [lookup_none_of_not_mem_keys k kvs (hs hx k hro)]
+        rfl
 
 theorem requiredOK_iff (s : RS) (kvs : List (Str × V)) :
     requiredOK s kvs = true ↔ ∀ k ∈ s.required, k ∈ keys kvs ∨ isRO (lookup k s.props) = true := by
@@ -287,15 +263,104 @@ def propWF (p : RS) (e : Option Enc) : Prop :=
 def propPre (p : RS) : Prop :=
   tyIs p.ty .object = false ∧ (tyIs p.ty .array = true → ∃ it, p.items = some it ∧ primTy it.ty = true)
 
-/-- one property: outside both classes the decoder stores exactly the value the fields encode -/
+/-- what the property loop keeps of a decoded property: nothing on error, nothing for "no value" -/
+def dropNull : Option V → Option V
+  | some .null => none
+  | o => o
+
+theorem parseItems_empty (t : Ty) (hp : primTy (some t) = true) (l : List Str)
+    (h : l.any (fun x => x.isEmpty) = true) :
+    parseItems (some t) l = none ∨ parseItems (some t) l = some none := by
+  induction l with
+  | nil => simp at h
+  | cons r rs ih =>
+    by_cases hr : r = []
+    · subst hr; right; simp [parseItems, parsePrimitive]
+    · have hrs : rs.any (fun x => x.isEmpty) = true := by
+        simp only [List.any_cons, Bool.or_eq_true] at h
+        rcases h with h | h
+        · simp [List.isEmpty_iff] at h; exact absurd h hr
+        · exact h
+      have hpe := parsePrimitive_eq_encodesPrim t r hr hp
+      unfold parseItems
+      rw [hpe]
+      cases he : encodesPrim t r with
+      | none => left; rfl
+      | some v =>
+        have hv := encodesPrim_ne_null t r v he
+        cases v with
+        | null => simp [V.isNull] at hv
+        | bool _ | int _ | half _ | str _ | arr _ | obj _ =>
+          simp only
+          rcases ih hrs with h1 | h1 <;> simp [h1]
+
+theorem parseItems_nonempty (t : Ty) (hp : primTy (some t) = true) (l : List Str)
+    (h : l.any (fun x => x.isEmpty) = false) : parseItems (some t) l ≠ some none := by
+  induction l with
+  | nil => simp [parseItems]
+  | cons r rs ih =>
+    simp only [List.any_cons, Bool.or_eq_false_iff] at h
+    have hr : r ≠ [] := by intro e; subst e; simp at h
+    have hpe := parsePrimitive_eq_encodesPrim t r hr hp
+    unfold parseItems
+    rw [hpe]
+    cases he : encodesPrim t r with
+    | none => simp
+    | some v =>
+      have hv := encodesPrim_ne_null t r v he
+      cases v with
+      | null => simp [V.isNull] at hv
+      | bool _ | int _ | half _ | str _ | arr _ | obj _ =>
+        simp only
+        cases hpi : parseItems (some t) rs with
+        | none => simp
+        | some o =>
+          cases o with
+          | none => exact absurd hpi (ih h.2)
+          | some vs => simp
+
+theorem encodesAll_length (t : Ty) (l : List Str) (vs : List V) (h : encodesAll t l = some vs) :
+    vs.length = l.length := by
+  induction l generalizing vs with
+  | nil => simp [encodesAll] at h; subst h; rfl
+  | cons r rs ih =>
+    unfold encodesAll at h
+    cases h1 : encodesPrim t r with
+    | none => simp [h1] at h
+    | some v =>
+      cases h2 : encodesAll t rs with
+      | none => simp [h1, h2] at h
+      | some ws => simp only [h1, h2, Option.some.injEq] at h; subst h; simp [ih ws h2]
+
+theorem splitOn_ne_nil (sep : Char) (s : Str) : splitOn sep s ≠ [] := by
+  cases s with
+  | nil => simp [splitOn]
+  | cons c cs =>
+    unfold splitOn
+    split
+    · simp
+    · split <;> simp
+
+theorem arrayRaw_ne_nil (e : Option Enc) (v0 : Str) (rest raw : List Str) (h : arrayRaw e v0 rest = some raw) :
+    raw ≠ [] := by
+  unfold arrayRaw at h
+  split at h
+  · cases h; simp
+  · split at h
+    · cases h; exact splitOn_ne_nil _ _
+    · cases h
+
+/-- one property: whenever the fields encode something for it (outside the class FormFieldUnparsable), the
+decoder's loop keeps exactly that: the value, or nothing when the property has no value -/
 theorem formProp_agree (fields : List (Str × List Str)) (k : Str) (p : RS) (e : Option Enc)
-    (hs : specFormProp fields k p e ≠ none) (hn : decodeFormProp fields k p e ≠ some .null)
-    (hwf : propWF p e) (hpre : propPre p) :
-    ∃ v, decodeFormProp fields k p e = some v ∧ specFormProp fields k p e = some (some v) := by
-  unfold decodeFormProp at hn ⊢
+    (hs : specFormProp fields k p e ≠ none) (hwf : propWF p e) (hpre : propPre p) :
+    specFormProp fields k p e = some (dropNull (decodeFormProp fields k p e)) := by
+  unfold decodeFormProp
   unfold specFormProp at hs ⊢
   cases hty : p.ty with
-  | none => simp [hty] at hn
+  | none => cases lookup k fields with
+    | none => rfl
+    | some vals => cases vals <;> rfl
   | some t =>
     cases t
     case object => exact absurd hpre.1 (by simp [hty, tyIs])
@@ -311,49 +376,63 @@ theorem formProp_agree (fields : List (Str × List Str)) (k : Str) (p : RS) (e :
       | some ti =>
         have hitemTy : itemTy p = some ti := by simp [itemTy, hit, hity]
         rw [hity] at hpit
-        simp only [hty, hnd, if_false, hitemTy] at hn ⊢
+        simp only [hnd, if_false, hitemTy]
         simp only [hty, hitemTy, Option.getD_some] at hs ⊢
         cases hl : lookup k fields with
-        | none => simp [hl] at hn
+        | none => simp [dropNull]
         | some vals =>
           cases vals with
-          | nil => simp [hl] at hn
+          | nil => simp [dropNull]
           | cons v0 rest =>
-            simp only [hl, Option.getD_some] at hn hs ⊢
+            simp only [hl, Option.getD_some] at hs ⊢
             cases hraw : arrayRaw e v0 rest with
             | none => simp [hraw] at hs
             | some raw =>
-              simp only [hraw] at hn hs ⊢
-              have hsp := parseItems_spec ti hpit raw
-              cases hpi : parseItems (some ti) raw with
-              | none => simp [hsp.1 hpi] at hs
-              | some o =>
-                cases o with
-                | none => simp [hpi] at hn
-                | some vs =>
-                  cases vs with
-                  | nil => simp [hpi] at hn
-                  | cons v vs' => exact ⟨_, rfl, by simp [hsp.2 _ hpi]⟩
+              simp only [hraw] at hs ⊢
+              cases hemp : raw.any (fun x => x.isEmpty) with
+              | true =>
+                simp only [if_true]
+                rcases parseItems_empty ti hpit raw hemp with h1 | h1 <;> simp [h1, dropNull]
+              | false =>
+                simp only [hemp, Bool.false_eq_true, if_false] at hs ⊢
+                have hsp := parseItems_spec ti hpit raw
+                cases hpi : parseItems (some ti) raw with
+                | none => simp [hsp.1 hpi] at hs
+                | some o =>
+                  cases o with
+                  | none => exact absurd hpi (parseItems_nonempty ti hpit raw hemp)
+                  | some vs =>
+                    have hall := hsp.2 _ hpi
+                    cases vs with
+                    | nil =>
+                      have := encodesAll_length ti raw [] hall
+                      have hne := arrayRaw_ne_nil e v0 rest raw hraw
+                      cases raw with
+                      | nil => exact absurd rfl hne
+                      | cons _ _ => simp at this
+                    | cons v vs' => simp [hall, dropNull]
     all_goals
       have hst : smStyle e = "form".toList := by
         rcases hwf with h | ⟨h, _⟩
         · exact h
         · simp [hty, tyIs] at h
       cases hl : lookup k fields with
-      | none => simp [hty, hl, hst] at hn
+      | none => simp [hst, dropNull]
       | some vals =>
         cases vals with
-        | nil => simp [hty, hl, hst] at hn
+        | nil => simp [hst, dropNull]
         | cons v0 rest =>
           by_cases hv0 : v0 = []
-          · simp [hty, hl, hst, hv0, parsePrimitive] at hn
+          · simp [hst, hv0, parsePrimitive, dropNull]
           · simp only [hty, hl, hst, ne_eq, not_true_eq_false, if_false, Option.getD_some, parsePrimitive,
               encodesPrim, hv0] at hs ⊢
             first
-              | exact ⟨_, rfl, rfl⟩
-              | (cases h1 : readInt v0 <;> simp [h1] at hs ⊢; done)
-              | (cases h1 : readNum v0 <;> simp [h1] at hs ⊢; done)
-              | (cases h1 : readBool v0 <;> simp [h1] at hs ⊢; done)
+              | rfl
+              | (cases h1 : readInt v0 <;> simp [h1, dropNull] at hs ⊢; done)
+              | (cases h1 : readNum v0 <;> simp [h1] at hs ⊢
+                 have hv := encodesPrim_ne_null .number v0 _ (by simpa [encodesPrim] using h1)
+                 rename_i v; cases v <;> simp [V.isNull] at hv <;> rfl; done)
+              | (cases h1 : readBool v0 <;> simp [h1, dropNull] at hs ⊢; done)
 
 theorem formPre_cons (k : Str) (p : RS) (r : List (Str × RS)) (h : formPre ((k, p) :: r) = .ok) :
     propPre p ∧ formPre r = .ok := by
@@ -377,9 +456,10 @@ theorem formPre_cons (k : Str) (p : RS) (r : List (Str × RS)) (h : formPre ((k,
       simp only [ha, Bool.false_eq_true, if_false] at h
       exact ⟨⟨rfl, fun h' => by simp at h'⟩, h⟩
 
-/-- the whole property list: outside both classes the decoder's object is the object the fields encode -/
+/-- the whole property list: outside the class FormFieldUnparsable the decoder's object is the object the
+fields encode -/
 theorem formProps_agree (fields : List (Str × List Str)) (encs : List (Str × Enc)) (props : List (Str × RS))
-    (hu : formUnparsable fields encs props = false) (hn : formNullStored fields encs props = false)
+    (hu : formUnparsable fields encs props = false)
     (hwf : encsWF encs props = true) (hpre : formPre props = .ok) :
     specFormProps fields encs props = some (decodeFormProps fields encs props) := by
   induction props with
@@ -388,20 +468,19 @@ theorem formProps_agree (fields : List (Str × List Str)) (encs : List (Str × E
     obtain ⟨k, p⟩ := x
     obtain ⟨hp, hr⟩ := formPre_cons k p r hpre
     simp only [formUnparsable, List.any_cons, Bool.or_eq_false_iff] at hu
-    simp only [formNullStored, List.any_cons, Bool.or_eq_false_iff] at hn
     simp only [encsWF, List.all_cons, Bool.and_eq_true] at hwf
-    have ihr := ih hu.2 hn.2 hwf.2 hr
+    have ihr := ih hu.2 hwf.2 hr
     have hs1 : specFormProp fields k p (lookup k encs) ≠ none := by
       intro h; simp [h] at hu
-    have hn1 : decodeFormProp fields k p (lookup k encs) ≠ some .null := by
-      intro h; simp [h] at hn
     have hw1 : propWF p (lookup k encs) := by
       have := hwf.1
       simp only [Bool.or_eq_true, Bool.and_eq_true, decide_eq_true_eq] at this
       exact this
-    obtain ⟨v, hd, hs⟩ := formProp_agree fields k p (lookup k encs) hs1 hn1 hw1 hp
+    have hag := formProp_agree fields k p (lookup k encs) hs1 hw1 hp
     unfold specFormProps decodeFormProps
-    simp only [hd, hs]
-    rw [show specFormProps fields encs r = some (decodeFormProps fields encs r) from ihr]
+    rw [hag, show specFormProps fields encs r = some (decodeFormProps fields encs r) from ihr]
+    cases hd : decodeFormProp fields k p (lookup k encs) with
+    | none => rfl
+    | some v => cases v <;> rfl
 
 end KinModel.Body
